@@ -980,6 +980,15 @@ impl ASN1Value {
                     tlds.get(&e.identifier).zip(tlds.get(identifier))
                 {
                     if ty.name != val.associated_type.as_str() {
+                        if Self::is_value_reference_cycle(tlds, identifier) {
+                            // `a INTEGER ::= b`, `b INTEGER ::= a`: substituting the referenced
+                            // value would never end
+                            return Err(grammar_error!(
+                                LinkerError,
+                                "Cyclic value reference while linking '{}'",
+                                identifier
+                            ));
+                        }
                         // When it comes to `DEFAULT` values, the ASN.1 type system
                         // is more lenient than Rust's. For example, the it is acceptable
                         // to pass `int-value` as a `DEFAULT` value for `Int-Like-Type` in
@@ -1418,6 +1427,31 @@ impl ASN1Value {
             (_, ASN1Value::ElsewhereDeclaredValue { .. }) => Err(GrammarError::todo()),
             _ => Ok(()),
         }
+    }
+
+    /// Does the chain of value references that starts at the value `identifier` lead back
+    /// into itself?
+    fn is_value_reference_cycle(
+        tlds: &BTreeMap<String, ToplevelDefinition>,
+        identifier: &str,
+    ) -> bool {
+        let mut seen = vec![identifier];
+        let mut current = identifier;
+        while let Some(ToplevelDefinition::Value(ToplevelValueDefinition {
+            value:
+                ASN1Value::ElsewhereDeclaredValue {
+                    identifier: next, ..
+                },
+            ..
+        })) = tlds.get(current)
+        {
+            if seen.contains(&next.as_str()) {
+                return true;
+            }
+            seen.push(next);
+            current = next;
+        }
+        false
     }
 
     fn link_enum_or_distinguished(
